@@ -99,6 +99,10 @@ func (m *Machine) lookupMethod(typ types.Type, meth *types.Func) *ssa.Function {
 
 func (m *Machine) step() {
 	m.steps++
+	if m.stepLimit > 0 && m.steps > m.stepLimit {
+		m.stepLimit = 0
+		m.violate("work-in-proportion-to-input", "the call ran past the step limit set by the harness (vrtStepLimit): it loops or does work out of proportion to its input", nil)
+	}
 	if m.steps > m.cfg.MaxSteps {
 		panic(pathEnd{"budget", fmt.Sprintf("step budget %d exhausted", m.cfg.MaxSteps)})
 	}
